@@ -474,9 +474,28 @@ Proof.
   - apply inv_update_auth; assumption.
 Qed.
 
+Lemma reg_unregister c s : reg (registry_unregister c s) = del c (reg s).
+Proof.
+  unfold registry_unregister. destruct (get c (reg s)) as [r|] eqn:E; [reflexivity|]. symmetry. apply del_none. exact E.
+Qed.
+Lemma closed_unregister c s : closed (registry_unregister c s) = closed s.
+Proof. unfold registry_unregister. destruct (get c (reg s)); reflexivity. Qed.
+Lemma sess_unregister c s : sess (registry_unregister c s) = sess s.
+Proof. unfold registry_unregister. destruct (get c (reg s)); reflexivity. Qed.
+
+(* Register of a ConnID that already has a record, the replacement wrapping the same (open) stream *)
+Lemma inv_rereg k c r s : Inv s -> mem c (closed s) = false -> Inv (registry_rereg Current k c r s).
+Proof.
+  intros Hinv Hopen. unfold registry_rereg. cbn [keeps_shared].
+  destruct (get c (reg s)) eqn:E.
+  - apply inv_register; [apply inv_unregister; exact Hinv|rewrite reg_unregister; apply get_del_same|].
+    intros _. rewrite closed_unregister. exact Hopen.
+  - apply inv_register; [exact Hinv|exact E|intros _; exact Hopen].
+Qed.
+
 Theorem inv_step k s o : Inv s -> Inv (fst (step Current k s o)).
 Proof.
-  intros Hinv. destruct o as [c|c kind x isCtl|c|c|c|c|x newc| |d|c pre|c x|c t|c]; cbn [step].
+  intros Hinv. destruct o as [c|c kind x isCtl|c|c|c|c|x newc| |d|c pre|c x|c t|c|c pre]; cbn [step].
   - destruct ((0 <? maxConn k) && (maxConn k <=? N.of_nat (length (sess s)))); [exact Hinv|].
     destruct (mem c (streams s)); [exact Hinv|]. destruct Hinv as [H1 H2 H3]. split; assumption.
   - apply inv_handshake. exact Hinv.
@@ -501,6 +520,9 @@ Proof.
   - destruct (mem c (sess s)); [|exact Hinv]. cbn [fst].
     pose proof (inv_unregister c s Hinv) as [H1 H2 H3]. split; assumption.
   - destruct (mem c (streams s)); [|exact Hinv]. destruct Hinv as [H1 H2 H3]. split; assumption.
+  - destruct (mem c (sess s) && negb (mem c (closed s))) eqn:Eg; [|exact Hinv].
+    cbn [fst]. apply andb_true_iff in Eg. destruct Eg as [_ Eg2]. apply negb_true_iff in Eg2.
+    apply inv_bump. apply inv_rereg; assumption.
 Qed.
 
 Theorem inv_run k ops : forall s, Inv s -> Inv (run Current k s ops).
@@ -632,4 +654,15 @@ Lemma demo_state :
   by_client (run Current k0 init demo_ops) 7 = Some 3 /\ by_client (run Current k0 init demo_ops) 8 = Some 2 /\
   by_conn (run Current k0 init demo_ops) 1 = None /\ mem 1 (closed (run Current k0 init demo_ops)) = true /\
   counts (run Current k0 init demo_ops) = (3, 2, 0).
+Proof. vm_compute. repeat split. Qed.
+
+(* the tree as it is (Head): Register of an existing ConnID closes the stream the replacement shares with the old record *)
+Lemma head_rereg_refuted :
+  exists ops x c, by_client (run Head k0 init ops) x = Some c /\ mem c (closed (run Head k0 init ops)) = true.
+Proof. exists [Accept 1; Handshake 1 0 7 true; ReReg 1 9], 9, 1. vm_compute. split; reflexivity. Qed.
+
+(* ... and with the repair: the authenticated record is replaced, the old id no longer resolves, the transport stays open *)
+Lemma rereg_demo :
+  let s := run Current k0 init [Accept 1; Handshake 1 0 7 true; ReReg 1 9] in
+  by_client s 9 = Some 1 /\ by_client s 7 = None /\ mem 1 (closed s) = false /\ counts s = (1, 1, 0).
 Proof. vm_compute. repeat split. Qed.
